@@ -62,9 +62,9 @@ def run_case(case):
     ref.np = NPProxy(real_np, olog)
     try:
         if r in NULL:
-            st, out = call(getattr(bct, r), W, case['itr'], case['freq'], seed=rec, t=case.get('t', 20.0))
+            st, out = call(getattr(bct, r), W, case['itr'], case['freq'], seed=rec, t=case.get('t', 5.0), retry=10)
         else:
-            st, out = call(getattr(bct, r), W, case['itr'], seed=rec, t=case.get('t', 20.0))
+            st, out = call(getattr(bct, r), W, case['itr'], seed=rec, t=case.get('t', 5.0), retry=10)
     finally:
         ref.np = real_np
     res['status'] = st; res['draws'] = rec.flat()
@@ -286,6 +286,7 @@ def main():
                        'representation of the same logical matrix (Fortran order, transposed view, non-contiguous slice; int64 / float32) - the model and the predicates see the logical matrix',
                        'np.argsort results inside the null models are taken from the real run as an oracle (recorded through a proxy of the module global np, /repo unedited); '
                        'the model checks each is a permutation, which is all the theorems use',
+                       'a call that hits the watchdog is re-tried once with 10x the budget; > 5 % timeouts or no normal return for a routine is a violation',
                        'randmio_*_signed are called on empty-diagonal input (property quantifier); the null models clear the diagonal themselves']
     ok = ck.lean_gate(['BctVerif.Props.C06'], extra_modules=['BctVerif.Model.Signed'])
     if ck.tier == 'thorough' and ok:
@@ -316,8 +317,7 @@ def main():
             continue
         rep = c.get('rep') or {}
         ck.count('rep:order=%s' % rep.get('order', 'C')); ck.count('rep:dtype=%s' % rep.get('dtype', 'float64'))
-        cond = {'routine': rt, 'int_dtype': rep.get('dtype', 'float64').startswith('int'),
-                'sorting_rounds': rt in NULL and c.get('freq', 0) != 0}
+        cond = {'routine': rt}
         if c.get('malformed'):
             ck.count('malformed:' + c['malformed'])
             if rt == 'null_model_und_sign' and not (r['status'] == 'exc' and exc_kind(r['exc']) == 'BCTParamError'):
